@@ -15,29 +15,37 @@ from .. import coqio as q
 PROP = "C04"
 CORR = "Corr.C04"
 REQUIRES = ["Model.Result", "Spec.C04"]
+CASE_TIMEOUT = 20
 PROOF_FILES = ["Proof/C04.v"]
 MANIFEST = {
     "text": "Coq theorems over all call histories and all adapter stacks (leaf-wise transition lemma proved by "
             "induction on the stack, then invariants over fold_left on each underlying result: verdict = no "
             "error/failure/unexpected success since the last startTestRun; TextTestResult summary; shouldStop iff "
             "stop() reached the result or failfast is set and a bad outcome occurred since the last startTestRun; "
-            "stop() on any node reaches every result below it) about a hand-written Gallina model of the "
-            "failfast/shouldStop/stop plumbing of real.py, tied to /repo on every run by differential execution of "
+            "stop() on any node reaches every result below it; ExtendedToOriginalDecorator over a foreign result of "
+            "any capability record stops it on every path of its outcome methods exactly when failfast is set) about "
+            "a hand-written Gallina model of the failfast/shouldStop/stop plumbing of real.py, tied to /repo on every run by differential execution of "
             "model and real classes inside coqc, with status-word tables regenerated from the live code; plus "
             "python -m testtools.run subprocess samples for the exit status.",
     "note": "Trusted: Coq kernel + vm_compute; the harness (generators, drivers, text parser, Gallina printer). "
             "Known finding F18 (failfast assigned on a ThreadsafeForwardingResult/TestResultDecorator/Tagger stack "
             "after wrapping, or failfast=True results inside a MultiTestResult) is delimited by Spec.C04.finding_F18; "
-            "C04_holds is proved for all other inputs. ExtendedToStreamDecorator is outside the verdict clause "
-            "(the statement does not list it). Exit status: sampled, not proved beyond run.py's one line.",
+            "C04_holds is proved for all other inputs. ExtendedToStreamDecorator and stacks ending in a foreign result "
+            "(unittest.TestResult, the doubles) are outside the verdict clause (the statement does not list them); a "
+            "foreign result never clears shouldStop at startTestRun, so for it 'not earlier than the first bad "
+            "outcome' is stated over the whole history. Capability records of the foreign classes are probed on the "
+            "live classes by the harness. Exit status: sampled, not proved beyond run.py's one line.",
     "technique": "Coq proof (induction on adapter stacks + invariants over histories) + model/implementation "
                  "correspondence in coqc + CLI samples",
     "ref": "6 C04",
 }
 RULE = ("histories over startTestRun / startTest / six outcome kinds / stopTest / stopTestRun / stop() on any node of "
         "the stack: exhaustive over a 7-letter alphabet to length 4 (quick) / 5 (thorough), random to length 40 with "
-        "restarts; each through a stack (fixed list + random to depth 4 over TestResult/TextTestResult(failfast?)/"
-        "E2S leaves and Multi/TFR/E2O/Decorator/Tagger) with failfast optionally assigned on the outermost object "
+        "restarts, every outcome reported either with a details dict or the original way (exc_info / reason / "
+        "nothing; exhaustive words in three renderings: mixed, all details, none); each through a stack (fixed list "
+        "+ random to depth 4 over TestResult/TextTestResult(failfast?)/E2S leaves, ExtendedToOriginalDecorator over "
+        "a foreign result (unittest.TestResult, doubles Python26/Python27/Extended/Twisted) and "
+        "Multi/TFR/E2O/Decorator/Tagger) with failfast optionally assigned on the outermost object "
         "after wrapping; non-trivial = a bad outcome, plus failfast somewhere or a stop(), plus a second startTestRun "
         "or a stopTestRun; distinct = distinct JSON")
 TRUSTED = ["the parser of TextTestResult's text (section headers, 'Ran N test(s)', OK / FAILED (failures=n)); "
@@ -47,7 +55,10 @@ ASSUMPTIONS = ["a stack containing a TextTestResult or an ExtendedToStreamDecora
                "lazily, which would reset shouldStop)",
                "failfast is assigned through constructors and on the outermost object only; MultiTestResult has at "
                "least one member",
-               "single thread (interleavings are C12)"]
+               "single thread (interleavings are C12)",
+               "a foreign result is always driven through an ExtendedToOriginalDecorator (explicit; MultiTestResult "
+               "and ThreadsafeForwardingResult add their own on top); its shouldStop is read on the object itself "
+               "where it has the attribute, else on that decorator"]
 EXPLANATION = ("Theorems in coq/Props/C04.v; correspondence: wasSuccessful()/shouldStop of the outermost real object "
                "and shouldStop of every underlying result after every call, parsed TextTestResult summaries, against "
                "coq/Model/Result.v; exit status of python -m testtools.run on generated modules.")
@@ -56,6 +67,77 @@ OUTCOMES = ["addSuccess", "addError", "addFailure", "addSkip", "addExpectedFailu
 KINDS = ["KSuccess", "KError", "KFailure", "KSkip", "KXfail", "KUxsuccess"]
 BAD = (1, 2, 5)
 LABELS = {"ERROR": 0, "FAIL": 1, "UNEXPECTED SUCCESS": 2}
+
+# foreign results put under an ExtendedToOriginalDecorator: unittest.TestResult and the doubles of
+# testtools.testresult.doubles (2.6-style, 2.7-style, extended, Twisted-style reporter)
+FLAVOURS = ["ut", "26", "27", "ext", "tw"]
+CAP_FIELDS = ["fc_uxs", "fc_uxs_details", "fc_details", "fc_failfast", "fc_acts", "fc_stop", "fc_uxs_counts",
+              "fc_resets"]
+_CAPS = {}
+
+
+def foreign_class(flavour):
+    import unittest
+    from testtools.testresult import doubles
+    return {"ut": unittest.TestResult, "26": doubles.Python26TestResult, "27": doubles.Python27TestResult,
+            "ext": doubles.ExtendedTestResult, "tw": doubles.TwistedTestResult}[flavour]
+
+
+def _exc_info():
+    try:
+        raise RuntimeError("boom")
+    except RuntimeError:
+        return sys.exc_info()
+
+
+def _accepts_details(method):
+    import inspect
+    try:
+        return "details" in inspect.signature(method).parameters
+    except (TypeError, ValueError):
+        return False
+
+
+def caps(flavour):
+    """capability record of a foreign result class (Model.Result.fcaps), probed on the live class itself -
+    never through ExtendedToOriginalDecorator"""
+    if flavour not in _CAPS:
+        from testtools import PlaceHolder
+        cls = foreign_class(flavour)
+        t = PlaceHolder("probe")
+        obj = cls()
+        has_uxs = hasattr(obj, "addUnexpectedSuccess")
+        has_ff = hasattr(obj, "failfast")
+        has_stop = hasattr(obj, "stop") and hasattr(obj, "shouldStop")
+        acts = False
+        if has_ff and has_stop:
+            fired = []
+            for m in ("addError", "addFailure") + (("addUnexpectedSuccess",) if has_uxs else ()):
+                o = cls()
+                o.failfast = True
+                if m == "addUnexpectedSuccess":
+                    o.addUnexpectedSuccess(t)
+                else:
+                    getattr(o, m)(t, _exc_info())
+                fired.append(bool(o.shouldStop))
+            if any(fired) != all(fired):
+                raise AssertionError("foreign result %s acts on failfast in some outcome methods only" % flavour)
+            acts = all(fired)
+        uxs_counts = False
+        if has_uxs:
+            o = cls()
+            o.addUnexpectedSuccess(t)
+            uxs_counts = not o.wasSuccessful()
+        resets = False
+        if hasattr(obj, "startTestRun"):
+            o = cls()
+            o.addError(t, _exc_info())
+            o.startTestRun()
+            resets = bool(o.wasSuccessful())
+        _CAPS[flavour] = [has_uxs, has_uxs and _accepts_details(obj.addUnexpectedSuccess),
+                          _accepts_details(obj.addError) and _accepts_details(obj.addFailure), has_ff, acts,
+                          has_stop, uxs_counts, resets]
+    return _CAPS[flavour]
 
 
 # ---------------- building real stacks ----------------
@@ -74,6 +156,11 @@ def build(tree, path, nodes, leaves):
     elif k == "S":
         r = real.ExtendedToStreamDecorator(real.StreamResult())
         leaves.append((r, None))
+    elif k == "X":
+        raw = foreign_class(tree[1])()
+        r = real.ExtendedToOriginalDecorator(raw)
+        # shouldStop of the target itself where it has one, else what the decorator keeps for it
+        leaves.append((raw if hasattr(raw, "shouldStop") else r, None))
     elif k == "M":
         r = real.MultiTestResult(*[build(c, path + (j,), nodes, leaves) for j, c in enumerate(tree[1])])
     elif k == "F":
@@ -105,9 +192,17 @@ def parse_summary(text):
             "sections": [[LABELS[l], int(t)] for l, t in _SECTION.findall(text)]}
 
 
+def with_details(op):
+    """an outcome op is ["O", kind, test, details?]; without the flag (older replay files): details for
+    addError / addFailure / addExpectedFailure, the original form otherwise"""
+    return bool(op[3]) if len(op) > 3 else op[1] in (1, 2, 4)
+
+
 def drive(case):
     from testtools import PlaceHolder
+    from testtools.content import text_content
     nodes, leaves = {}, []
+    err = _exc_info()
     r = build(case["stack"], (), nodes, leaves)
     if case["set"] is not None:
         r.failfast = case["set"]
@@ -129,8 +224,13 @@ def drive(case):
             r.stopTest(T(op[1]))
         elif k == "O":
             m = OUTCOMES[op[1]]
-            if m in ("addError", "addFailure", "addExpectedFailure"):
-                getattr(r, m)(T(op[2]), details={})
+            if with_details(op):
+                if m == "addSkip":
+                    r.addSkip(T(op[2]), details={"reason": text_content("why")})
+                else:
+                    getattr(r, m)(T(op[2]), details={"log": text_content("some log")})
+            elif m in ("addError", "addFailure", "addExpectedFailure"):
+                getattr(r, m)(T(op[2]), err)
             elif m == "addSkip":
                 r.addSkip(T(op[2]), "why")
             else:
@@ -159,6 +259,8 @@ def t_stack(t):
         return "(ATR %s %s)" % (q.boolean(t[1]), q.boolean(t[2]))
     if k == "S":
         return "AE2S"
+    if k == "X":
+        return "(AFor %s)" % q.record([(f, q.boolean(b)) for f, b in zip(CAP_FIELDS, caps(t[1]))])
     if k == "M":
         return "(AMulti %s)" % q.lst([t_stack(c) for c in t[1]])
     if k == "D":
@@ -177,7 +279,7 @@ def t_op(op):
     if k == "E":
         return "StopTest %s" % q.nat(op[1])
     if k == "O":
-        return "Outcome %s %s" % (KINDS[op[1]], q.nat(op[2]))
+        return "Outcome %s %s %s" % (KINDS[op[1]], q.boolean(with_details(op)), q.nat(op[2]))
     if k == "X":
         return "StopAt %s" % q.lst([q.nat(j) for j in op[1]])
     raise ValueError(op)
@@ -215,6 +317,10 @@ def R(ff=False, txt=False):
     return ["R", ff, txt]
 
 
+def X(flavour):
+    return ["X", flavour]
+
+
 STACKS = [
     R(), R(True), R(False, True), R(True, True), ["S"],
     ["M", [R()]], ["M", [R(), R(False, True)]], ["M", [R(True), R()]], ["M", [["S"], R()]],
@@ -225,6 +331,10 @@ STACKS = [
     ["D", False, ["M", [R(), ["F", R()]]]], ["F", ["F", R(False, True)]], ["M", [["M", [R(), R()]], R()]],
     ["O", ["O", R(True)]], ["M", [["F", ["M", [R(), R(False, True)]]], ["D", True, ["O", R()]]]],
     ["F", ["D", False, ["O", R(True, True)]]], ["M", [["O", ["S"]], ["F", ["S"]]]],
+    # ExtendedToOriginalDecorator over foreign results, alone and inside stacks
+    X("ut"), X("26"), X("27"), X("ext"), X("tw"), ["O", X("ext")], ["M", [X("ext"), R()]], ["M", [X("26"), X("tw")]],
+    ["F", X("ext")], ["F", X("ut")], ["D", False, X("ext")], ["D", True, X("27")],
+    ["M", [["F", X("tw")], ["O", X("27")]]],
 ]
 
 
@@ -251,6 +361,8 @@ def rand_stack(rng, d):
         x = rng.random()
         if x < 0.15:
             return ["S"]
+        if x < 0.45:
+            return X(rng.choice(FLAVOURS))
         return R(rng.random() < 0.3, rng.random() < 0.4)
     k = rng.choice("MMFFOD")
     if k == "M":
@@ -267,6 +379,7 @@ def rand_hist(rng, n, stack):
     sloppy = rng.random() < 0.15
     p_bad = rng.choice([0.1, 0.3, 0.6])
     p_stop = rng.choice([0.0, 0.03, 0.1])
+    p_det = rng.choice([0.0, 0.5, 0.5, 1.0])       # how outcomes are reported: exc_info / reason, or details=
     while len(h) < n:
         x = rng.random()
         if x < 0.08:
@@ -276,16 +389,18 @@ def rand_hist(rng, n, stack):
         elif x < 0.14 + p_stop:
             h.append(["X", rng.choice(ps)])
         elif sloppy and x < 0.35:
-            h.append(rng.choice([["S", t], ["E", t], ["O", rng.randrange(6), t], ["O", rng.choice(BAD), t + 1]]))
+            h.append(rng.choice([["S", t], ["E", t], ["O", rng.randrange(6), t, rng.random() < 0.5],
+                                 ["O", rng.choice(BAD), t + 1, rng.random() < 0.5]]))
         else:
             t += 1
             k = rng.choice(BAD) if rng.random() < p_bad else rng.choice([0, 0, 3, 4])
+            d = rng.random() < p_det
             if rng.random() < 0.1:
-                h += [["O", k, t], ["E", t]]          # startTest-less
+                h += [["O", k, t, d], ["E", t]]          # startTest-less
             elif rng.random() < 0.08:
                 h += [["S", t], ["E", t]]             # no outcome
             else:
-                h += [["S", t], ["O", k, t], ["E", t]]
+                h += [["S", t], ["O", k, t, d], ["E", t]]
     return h[:n]
 
 
@@ -294,6 +409,13 @@ ALPHA = [["R"], ["S", 1], ["O", 1, 1], ["O", 0, 1], ["O", 5, 1], ["Q"], ["X", []
 
 def fix(stack, hist):
     return ([["R"]] + hist) if needs_start(stack) and hist[:1] != [["R"]] else hist
+
+
+def reported(hist, mode):
+    """the same calls with every outcome reported the given way: 0 as written, 1 with details=, 2 without"""
+    if mode == 0:
+        return hist
+    return [op[:3] + [mode == 1] if op[0] == "O" else op for op in hist]
 
 
 def generate(rng, tier):
@@ -307,6 +429,13 @@ def generate(rng, tier):
         t1 + [["R"]] + [["S", 2], ["O", 4, 2], ["E", 2]],
         [["R"], ["O", 3, 1], ["E", 1], ["O", 2, 2], ["Q"]],
         [],
+        # every outcome reported with a details dict, the way testtools.TestCase does; the first problem is an
+        # unexpected success
+        [["R"], ["S", 1], ["O", 4, 1, True], ["E", 1], ["S", 2], ["O", 3, 2, True], ["E", 2], ["S", 3], ["O", 5, 3, True],
+         ["E", 3], ["S", 4], ["O", 0, 4, True], ["E", 4], ["Q"]],
+        # ... and everything the original way
+        [["S", 1], ["O", 4, 1, False], ["E", 1], ["S", 2], ["O", 5, 2, False], ["E", 2], ["R"], ["S", 3],
+         ["O", 1, 3, False], ["E", 3]],
     ]
     for h in fixed_h:
         for s in STACKS:
@@ -318,8 +447,9 @@ def generate(rng, tier):
         for w in itertools.product(ALPHA, repeat=n):
             s = STACKS[k % len(STACKS)]
             st = (None, True, None, False, True)[(k // len(STACKS)) % 5]
+            mode = (k // 3) % 3
             k += 1
-            cases.append({"stack": s, "set": st, "hist": fix(s, [list(x) for x in w])})
+            cases.append({"stack": s, "set": st, "hist": fix(s, reported([list(x) for x in w], mode))})
     n_rand = 2200 if tier == "quick" else 60000
     for _ in range(n_rand):
         s = rng.choice(STACKS) if rng.random() < 0.4 else rand_stack(rng, rng.choice([1, 2, 3, 4]))
@@ -348,6 +478,11 @@ def _sub_stacks(t):
         return
     if k == "S":
         yield R()
+        return
+    if k == "X":
+        yield R()
+        if t[1] != "ext":
+            yield X("ext")
         return
     if k == "M":
         for c in t[1]:
@@ -382,20 +517,32 @@ def shrink(case):
         if op[0] == "X" and op[1]:
             yield {"stack": s, "set": st, "hist": h[:i] + [["X", op[1][:-1]]] + h[i + 1:]}
         if op[0] == "O" and op[1] not in (0, 1):
-            yield {"stack": s, "set": st, "hist": h[:i] + [["O", 1 if op[1] in BAD else 0, op[2]]] + h[i + 1:]}
+            yield {"stack": s, "set": st,
+                   "hist": h[:i] + [["O", 1 if op[1] in BAD else 0, op[2], with_details(op)]] + h[i + 1:]}
+        if op[0] == "O" and with_details(op):
+            yield {"stack": s, "set": st, "hist": h[:i] + [["O", op[1], op[2], False]] + h[i + 1:]}
 
 
 def distribution(cases):
-    d = {"hist_len": {}, "stack_kinds": {}, "set_after": {"none": 0, "true": 0, "false": 0}, "with_stop": 0,
-         "with_bad_outcome": 0, "restarts": 0, "ctor_failfast": 0, "nontrivial": 0}
+    d = {"hist_len": {}, "stack_kinds": {}, "foreign_flavours": {}, "set_after": {"none": 0, "true": 0, "false": 0},
+         "with_stop": 0, "with_bad_outcome": 0, "bad_outcome_with_details": 0, "bad_outcome_without_details": 0,
+         "uxsuccess_with_details_on_foreign": 0, "restarts": 0, "ctor_failfast": 0, "nontrivial": 0}
     for c in cases:
         n = len(c["hist"])
         b = "0-4" if n <= 4 else "5-10" if n <= 10 else "11-25" if n <= 25 else "26+"
         d["hist_len"][b] = d["hist_len"].get(b, 0) + 1
         s = json.dumps(c["stack"])
-        for k, nm in (("M", "Multi"), ("D", "Decorator/Tagger"), ("O", "E2O"), ("F", "TFR"), ("S", "E2S")):
+        for k, nm in (("M", "Multi"), ("D", "Decorator/Tagger"), ("O", "E2O"), ("F", "TFR"), ("S", "E2S"),
+                      ("X", "E2O over foreign result")):
             if '"%s"' % k in s:
                 d["stack_kinds"][nm] = d["stack_kinds"].get(nm, 0) + 1
+        for fl in FLAVOURS:
+            if '["X", "%s"]' % fl in s:
+                d["foreign_flavours"][fl] = d["foreign_flavours"].get(fl, 0) + 1
+        bad_ops = [op for op in c["hist"] if op[0] == "O" and op[1] in BAD]
+        d["bad_outcome_with_details"] += any(with_details(op) for op in bad_ops)
+        d["bad_outcome_without_details"] += any(not with_details(op) for op in bad_ops)
+        d["uxsuccess_with_details_on_foreign"] += ('"X"' in s and any(op[1] == 5 and with_details(op) for op in bad_ops))
         if re.search(r'\["R", (true|false), true\]', s):
             d["stack_kinds"]["TextTestResult"] = d["stack_kinds"].get("TextTestResult", 0) + 1
         d["set_after"]["none" if c["set"] is None else "true" if c["set"] else "false"] += 1
